@@ -2,6 +2,7 @@ package main
 
 import (
 	"math/rand"
+	"strconv"
 	"strings"
 )
 
@@ -93,7 +94,10 @@ func randNumberText(r *rand.Rand) string {
 	case 2:
 		return pick(r, []string{"1.", ".5", "1.5", "0.0", "3.14159", "1.5s", "1e5", "1.e5", "1..2", "1.2.3", "10.", ".0"})
 	case 3:
-		return pick(r, []string{"1s", "10m", "1h30m", "7d", "2w", "100ms", "5u", "5µ", "3ns", "1x", "1ss", "1m2", "1abc", "9223372036854775807ns", "1000000w", "1µs"})
+		if r.Intn(2) == 0 {
+			return randCompositeDuration(r)
+		}
+		return pick(r, []string{"1s", "10m", "1h30m", "7d", "2w", "100ms", "5u", "5µ", "3ns", "1x", "1ss", "1m2", "1abc", "9223372036854775807ns", "1000000w", "1µs", "3s7µ", "1ms500µ", "1µ2µ", "1µs3", "2h10µ5ns"})
 	}
 	n := r.Intn(100000)
 	s := ""
@@ -156,6 +160,39 @@ func randLexText(r *rand.Rand, withNul bool) string {
 		default:
 			b.WriteString(pick(r, wsPool))
 		}
+	}
+	return b.String()
+}
+
+// randCompositeDuration spells a duration of one to four components with every unit spelling (both
+// spellings of the microsecond) at every place, in any order; now and then an odd tail (a trailing digit
+// run, a doubled unit letter). Round-3 seeded change C01-1 honoured 'µ' in the first component only.
+func randCompositeDuration(r *rand.Rand) string {
+	units := []string{"ns", "u", "µ", "ms", "s", "m", "h", "d", "w", "µ", "µs", "us"}
+	var b strings.Builder
+	k := 1 + r.Intn(4)
+	for i := 0; i < k; i++ {
+		b.WriteString(strconv.Itoa(r.Intn(1000)))
+		b.WriteString(units[r.Intn(len(units))])
+	}
+	switch r.Intn(12) {
+	case 0:
+		b.WriteString(strconv.Itoa(r.Intn(10)))
+	case 1:
+		b.WriteString("µ")
+	}
+	return b.String()
+}
+
+// randValidCompositeDuration: as randCompositeDuration, but only with the units ParseDuration knows and
+// without odd tails, so that the text is a valid duration literal.
+func randValidCompositeDuration(r *rand.Rand) string {
+	units := []string{"ns", "u", "µ", "ms", "s", "m", "h", "d", "w", "µ"}
+	var b strings.Builder
+	k := 1 + r.Intn(4)
+	for i := 0; i < k; i++ {
+		b.WriteString(strconv.Itoa(r.Intn(1000)))
+		b.WriteString(units[r.Intn(len(units))])
 	}
 	return b.String()
 }
